@@ -185,6 +185,8 @@ def hyp_run(ctx, strategy, body, max_examples, shrink_calls=None, salt=0):
             ctx.record(case, *res)
 
     test = seed(ctx.hseed * 1000003 + salt)(hyp_settings(max_examples)(given(strategy)(wrapped)))
+    if getattr(ctx, "fuzz", None):
+        fuzz_drive(ctx, test, st)
     try:
         test()
     except Violation:
@@ -209,6 +211,9 @@ def machine_run(ctx, machine_cls, max_examples, steps, shrink_calls=None):
     machine_cls._ctx = ctx
     machine_cls._st = st
     machine_cls._shrink_calls = shrink_calls
+    if getattr(ctx, "fuzz", None):
+        from hypothesis.stateful import get_state_machine_test
+        fuzz_drive(ctx, get_state_machine_test(machine_cls, settings=hyp_settings(max_examples, steps)), st)
     try:
         run_state_machine_as_test(seed(ctx.hseed)(machine_cls), settings=hyp_settings(max_examples, steps))
     except Violation:
@@ -218,6 +223,86 @@ def machine_run(ctx, machine_cls, max_examples, steps, shrink_calls=None):
             raise
     if st["best"] is not None:
         ctx.violation(st["best"][0], st["best"][1])
+
+
+def fuzz_drive(ctx, test, st):
+    """Coverage-guided drive (atheris/libFuzzer) of a Hypothesis test: libFuzzer mutates the byte string from
+    which Hypothesis decodes its choices; the sub-check's body is the oracle.  Never returns: the process exits
+    0 after `runs` executed cases, 77 on a violation (decoded case saved), 78 on a harness error."""
+    fz = ctx.fuzz
+    atheris = fz["atheris"]
+    target = test.hypothesis.fuzz_one_input
+    state = {"calls": 0}
+    real_stderr = sys.stderr
+
+    def dump(error=None, rc=0):
+        res = ctx.result()
+        res["error"] = error
+        res["extra"] = dict(res.get("extra") or {}, fuzz_calls=state["calls"])
+        res["wall_s"] = time.time() - fz["t0"]
+        with open(fz["out"], "w") as f:
+            json.dump(res, f)
+        os._exit(rc)
+
+    def one(data):
+        state["calls"] += 1
+        try:
+            target(data)
+        except Violation as v:
+            if st["best"] is None:
+                st["best"] = ({"note": "case not captured", "bytes": data.hex()}, str(v))
+            ctx.violation(st["best"][0], st["best"][1])
+            dump(None, 77)
+        except BaseException as e:
+            dump("fuzz target raised outside the oracle: " +
+                 "".join(traceback.format_exception(type(e), e, e.__traceback__))[-3000:], 78)
+        if ctx.evaluations >= fz["runs"] or state["calls"] >= 60 * fz["runs"] + 2000:
+            dump(None, 0)
+
+    corpus = os.path.join(fz["workdir"], "corpus")
+    os.makedirs(corpus, exist_ok=True)
+    argv = [sys.argv[0], "-seed=%d" % fz["seed"], "-runs=%d" % (80 * fz["runs"] + 4000), "-max_len=4096",
+            "-len_control=0", "-print_final_stats=0", "-verbosity=0",
+            "-artifact_prefix=" + os.path.join(fz["workdir"], "crash-"), corpus]
+    atheris.Setup(argv, one)
+    atheris.Fuzz()
+    dump("libFuzzer returned before the case budget was reached", 0)
+
+
+def _fuzz_shard(args):
+    """Parent side of a fuzz:<kind> shard: fresh work directory, child process, read its result file."""
+    import shutil
+    import subprocess
+    pid, modname, tier, seed, kind, shard, nshards, budget, known = args
+    sub = kind.split(":", 1)[1]
+    work = os.path.join(HOME, "work", "fuzz", "%s-%s-%d" % (pid, sub, shard))
+    shutil.rmtree(work, ignore_errors=True)
+    os.makedirs(work)
+    out = os.path.join(work, "result.json")
+    spec = {"pid": pid, "modname": modname, "tier": tier, "seed": seed, "kind": sub, "shard": shard,
+            "nshards": nshards, "budget": budget, "known": known, "out": out, "workdir": work}
+    with open(os.path.join(work, "args.json"), "w") as f:
+        json.dump(spec, f)
+    t0 = time.time()
+    with open(os.path.join(work, "log.txt"), "w") as log:
+        p = subprocess.run([sys.executable, "-W", "ignore", "-m", "vlib.fuzzproc", os.path.join(work, "args.json")],
+                           stdout=log, stderr=log, cwd=CODE_HOME)
+    if os.path.exists(out):
+        res = json.load(open(out))
+    else:
+        tail = open(os.path.join(work, "log.txt")).read()[-1500:]
+        res = Ctx(pid, tier, seed, sub, shard, nshards, budget, known).result()
+        res["error"] = "fuzz child exited %d without a result: %s" % (p.returncode, tail)
+    res["kind"] = kind
+    res["shard"] = shard
+    for v in res.get("violations", []):
+        v["kind"] = sub
+    if p.returncode not in (0, 77) and not res.get("error"):
+        res["error"] = "fuzz child exited %d" % p.returncode
+    res["wall_s"] = time.time() - t0
+    if not res.get("violations") and not res.get("error"):
+        shutil.rmtree(work, ignore_errors=True)
+    return res
 
 
 class MachineMixin:
@@ -261,6 +346,14 @@ class MachineMixin:
 
 def _shard_entry(args):
     pid, modname, tier, seed, kind, shard, nshards, budget, known = args
+    if kind.startswith("fuzz:"):
+        try:
+            return _fuzz_shard(args)
+        except BaseException as e:
+            res = Ctx(pid, tier, seed, kind, shard, nshards, budget, known).result()
+            res["error"] = "".join(traceback.format_exception(type(e), e, e.__traceback__))[-4000:]
+            res["wall_s"] = 0.0
+            return res
     sys.setrecursionlimit(10000)
     t0 = time.time()
     ctx = Ctx(pid, tier, seed, kind, shard, nshards, budget, known)
@@ -381,7 +474,11 @@ def main(argv=None):
             violations.append((os.path.relpath(path, HOME), msg))
 
     # 2. generated / enumerated shards
-    plan = mod.plan(a.tier)
+    plan = list(mod.plan(a.tier))
+    if a.tier == "thorough":
+        # coverage-guided supplement (atheris/libFuzzer over the same generators and oracles)
+        for fk, (fshards, fruns) in sorted(getattr(mod, "FUZZ", {}).items()):
+            plan.append(("fuzz:" + fk, fshards, fruns))
     jobs = []
     for kind, nshards, budget in plan:
         if a.only and kind != a.only:
